@@ -70,7 +70,12 @@ class PCACDModel:
         if self.scaling:
             self.mu = R.mean(0)
             self.sd = R.std(0)
-            self.sd[self.sd == 0] = 1.0
+            # a feature that is constant over the reference window has no scale (unit scale is used); "constant" is judged up to the
+            # rounding of the mean / variance computation, as any standardisation has to
+            n_ = len(R)
+            eps_ = np.finfo(float).eps
+            var_ = self.sd ** 2
+            self.sd[var_ <= n_ * eps_ * var_ + (n_ * self.mu * eps_) ** 2] = 1.0
             Rs, Ts = (R - self.mu) / self.sd, (T - self.mu) / self.sd
         else:
             Rs, Ts = R, T
